@@ -19,7 +19,62 @@ const twTimeout = 120 * time.Millisecond
 
 type resRig struct {
 	*base
-	rm *dispose.ResourceManager
+	rm  *dispose.ResourceManager
+	mu  sync.Mutex
+	cur map[string]string // name -> object registered under it by the driver (as far as the driver knows)
+}
+
+// register / unregister: the driver's own calls on the registry, recorded as Own (the manager now owes the object one
+// Dispose) and Drop (it is relieved of it again) - only when the manager accepted the call.
+func (r *resRig) register(name, obj string) {
+	if err := r.rm.Register(name, &gatedRes{r: r, name: obj}); err == nil {
+		r.mu.Lock()
+		r.cur[name] = obj
+		r.mu.Unlock()
+		r.rec.add(fw.Event{"ev": "Own", "h": obj})
+	}
+}
+
+func (r *resRig) unregister(name string) {
+	r.mu.Lock()
+	obj := r.cur[name]
+	r.mu.Unlock()
+	if err := r.rm.Unregister(name); err == nil {
+		if obj == "" {
+			obj = name
+		}
+		r.rec.add(fw.Event{"ev": "Drop", "h": obj})
+		r.mu.Lock()
+		if r.cur[name] == obj {
+			delete(r.cur, name)
+		}
+		r.mu.Unlock()
+	}
+}
+
+// settle waits until no goroutine is inside the dispose package any more (a DisposeWithTimeout that has returned may
+// have left its helper behind, still disposing) and records that as Settled. Not settled in time: no event, and the
+// judge then takes the following calls as made while a disposal is in flight (they owe nothing).
+func (r *resRig) settle(limit time.Duration) bool {
+	me := goid()
+	deadline := time.Now().Add(limit)
+	for {
+		busy := false
+		for _, g := range dumpGoroutines() {
+			if g.id != me && !r.bl[g.id] && strings.Contains(g.text, repoPrefix+"core/dispose.") {
+				busy = true
+				break
+			}
+		}
+		if !busy {
+			r.rec.add(fw.Event{"ev": "Settled"})
+			return true
+		}
+		if time.Now().After(deadline) {
+			return false
+		}
+		time.Sleep(300 * time.Microsecond)
+	}
 }
 
 type gatedRes struct {
@@ -39,7 +94,7 @@ func (g *gatedRes) Dispose() error {
 }
 
 func newResRig(free bool, seed int64, hold time.Duration) *resRig {
-	r := &resRig{base: newBase(free, seed)}
+	r := &resRig{base: newBase(free, seed), cur: map[string]string{"r1": "r1", "r2": "r2"}}
 	r.rm = dispose.NewResourceManager()
 	for _, n := range []string{"r1", "r2"} {
 		h := time.Duration(0)
@@ -64,20 +119,67 @@ func (r *resRig) finish() *fw.Trace {
 	if !r.s.Drain(8 * time.Second) {
 		return &fw.Trace{Status: fw.DriverError, Note: "resmgr: callers did not finish: " + fmt.Sprint(r.s.Procs())}
 	}
+	r.settle(5 * time.Second)
 	r.rec.add(fw.Event{"ev": "CloseCall", "p": "z"})
 	r.rec.guard("DisposeAll", func() { r.rm.DisposeAll() })
 	r.rec.add(fw.Event{"ev": "CloseRet", "p": "z"})
 	// operations on a disposed manager
 	r.runOp("GetResourceCount", func() error { r.rm.GetResourceCount(); return nil })
 	r.runOp("ListResources", func() error { r.rm.ListResources(); return nil })
-	r.runOp("Unregister", func() error { r.rm.Unregister("r1"); return nil })
+	r.runOp("Unregister", func() error { r.unregister("r1"); return nil })
 	r.runOp("DisposeWithTimeout", func() error { r.rm.DisposeWithTimeout(20 * time.Millisecond); return nil })
 	r.quiesce("resmgr", false, 0)
 	r.cancel()
-	return r.trace("resmgr", false)
+	t := r.trace("resmgr", false)
+	t.Events[0]["excl"] = true // a disposal call that finds another one in flight returns at once and takes over nothing
+	return t
+}
+
+// driveResMgrHistory: driver-made registration histories (no race): names unregistered and registered again, once
+// or several times, a name registered and taken out again for good, before DisposeAll / DisposeWithTimeout; then a
+// second generation: names registered again on the disposed manager and the manager disposed once more. Every object
+// registered when a disposal starts is disposed exactly once, whatever the history of its name.
+func driveResMgrHistory(beh behaviour, seed int64) *fw.Trace {
+	r := newResRig(true, seed, 0)
+	ver := map[string]int{"r1": 1, "r2": 1}
+	rereg := func(name string) {
+		r.unregister(name)
+		ver[name]++
+		r.register(name, fmt.Sprintf("%sv%d", name, ver[name]))
+	}
+	for k := 0; k <= beh.Seed%3; k++ {
+		rereg([]string{"r1", "r2"}[(k+beh.Seed/3)%2])
+	}
+	if beh.Seed%2 == 1 { // a third name comes and goes
+		r.register("r3", "r3")
+		r.unregister("r3")
+	}
+	disposeOnce := func(p string, withTimeout bool) {
+		r.rec.add(fw.Event{"ev": "CloseCall", "p": p})
+		if withTimeout {
+			r.rec.guard("DisposeWithTimeout", func() { r.rm.DisposeWithTimeout(3 * time.Second) })
+		} else {
+			r.rec.guard("DisposeAll", func() { r.rm.DisposeAll() })
+		}
+		r.rec.add(fw.Event{"ev": "CloseRet", "p": p, "async": withTimeout})
+	}
+	disposeOnce("d1", beh.Seed%2 == 1)
+	r.settle(5 * time.Second)
+	// second generation on the same manager
+	ver["r1"]++
+	r.register("r1", fmt.Sprintf("r1v%d", ver["r1"]))
+	if beh.Seed%3 == 0 {
+		rereg("r1")
+	}
+	r.register("r4", "r4")
+	disposeOnce("d2", beh.Seed%2 == 0)
+	return r.finish()
 }
 
 func driveResMgr(beh behaviour, seed int64) *fw.Trace {
+	if beh.Op == "history" {
+		return driveResMgrHistory(beh, seed)
+	}
 	if beh.Free {
 		return driveResMgrFree(beh, seed)
 	}
@@ -111,9 +213,18 @@ func driveResMgr(beh behaviour, seed int64) *fw.Trace {
 				return r.unreal(i, "%s is disposing %v, model expects %s", n, at.Info, want)
 			}
 			r.s.Step(n)
+		case st.A == "Unreg": // the resource registered as r1 is taken out of the manager ...
+			r.unregister("r1")
+		case st.A == "Reg": // ... and another one registered under the same name
+			r.register("r1", "r1b")
 		case st.A == "TwCall":
 			r.withWatchdog(true, func() string {
-				return r.startClose("tw", func() { r.rm.DisposeWithTimeout(twTimeout) })
+				r.rec.add(fw.Event{"ev": "CloseCall", "p": "tw"})
+				return r.s.Start("tw", func() any {
+					r.rec.guard("Close", func() { r.rm.DisposeWithTimeout(twTimeout) })
+					r.rec.add(fw.Event{"ev": "CloseRet", "p": "tw", "async": true}) // its helper may still be disposing
+					return nil
+				})
 			})
 		case st.A == "Recv", st.A == "Timeout":
 			// the result arrives / the timeout passes: either way DisposeWithTimeout returns
@@ -155,20 +266,29 @@ func driveResMgrFree(beh behaviour, seed int64) *fw.Trace {
 			jitter(rnd, &mu)
 			r.rec.add(fw.Event{"ev": "CloseCall", "p": p})
 			r.rec.guard("Dispose", f)
-			r.rec.add(fw.Event{"ev": "CloseRet", "p": p})
+			r.rec.add(fw.Event{"ev": "CloseRet", "p": p, "async": p == "tw"})
 		}()
 	}
 	call("tw", func() { r.rm.DisposeWithTimeout(timeout) })
 	for i := 0; i < beh.Closers; i++ {
 		call(fmt.Sprintf("d%d", i+1), func() { r.rm.DisposeAll() })
 	}
+	if beh.Seed%3 == 1 { // the registry changes meanwhile: r1 replaced under the same name
+		wg.Add(1)
+		go func() {
+			defer wg.Done()
+			<-gun
+			jitter(rnd, &mu)
+			r.unregister("r1")
+			jitter(rnd, &mu)
+			r.register("r1", "r1b")
+		}()
+	}
 	close(gun)
 	done := make(chan struct{})
 	go func() { wg.Wait(); close(done) }()
-	select {
-	case <-done:
-	case <-time.After(10 * time.Second):
-		return &fw.Trace{Status: fw.DriverError, Note: "resmgr: free-running callers did not finish"}
+	if t := awaitFree(done, "resmgr: free-running callers"); t != nil {
+		return t
 	}
 	time.Sleep(hold) // the slow disposal (continuing in the helper goroutine) ends
 	return r.finish()
